@@ -406,6 +406,8 @@ Step(e) ==
                        \cup Flag("C03", ~e.added \/ e.cost <= e.max \/ raised \/ mcOpen # 0 \/ mcN # e.mcb, "an item larger than MaxCost was admitted")
                        \cup Flag("C09", polCur = NoPol \/ polCur.h # e.h \/ polCur.mc # e.mcb \/ ~polCur.fits \/ (e.added /\ e.nv = 0),
                                  "an item that fits in the remaining capacity was not admitted without eviction")
+                       \cup Flag("C09", polCur = NoPol \/ polCur.h # e.h \/ ~e.added \/ ~polCur.lower,
+                                 "an item was admitted although its estimate is lower than the least-frequent candidate's")
                        \cup Flag("C09", polCur = NoPol \/ polCur.h # e.h \/ polCur.mc # e.mcb \/ e.added \/ polCur.has \/ polCur.big \/ polCur.lower,
                                  "an item was turned away although its estimate is not lower than the least-frequent candidate's")
          /\ polCur' = NoPol
@@ -432,7 +434,11 @@ Step(e) ==
          LET ests == {e.sample[i][2] : i \in DOMAIN e.sample}
              mn == IF ests = {} THEN 1000000000 ELSE CHOOSE x \in ests : \A y \in ests : x <= y IN
          /\ polCur' = IF polCur = NoPol THEN polCur ELSE [polCur EXCEPT !.lower = (e.inc < mn)]
-         /\ bad' = bad \cup Flag("C09", e.inc < mn \/ e.minHits = mn, "the victim is not the least-frequently-accessed of the sampled candidates")
+         /\ bad' = bad \cup Flag("C09", polCur = NoPol \/ polCur.h # e.h \/ ~polCur.lower,
+                                 "eviction went on although the newcomer's estimate is lower than the least-frequent candidate's")
+                       \cup Flag("C09", polCur = NoPol \/ polCur.h # e.h \/ e.inc = polCur.inc,
+                                 "the decision used an estimate of the newcomer that differs from its estimate at decision time")
+                       \cup Flag("C09", e.inc < mn \/ e.minHits = mn, "the victim is not the least-frequently-accessed of the sampled candidates")
                        \cup Flag("C09", e.inc < mn \/ \E i \in DOMAIN e.sample : e.sample[i][1] = e.min /\ e.sample[i][2] = mn,
                                  "the victim is not one of the sampled candidates with the lowest estimate")
                        \cup Flag("C09", e.inc < mn \/ e.minHits <= e.inc, "a victim has a higher estimate than the newcomer")
